@@ -358,6 +358,9 @@ def inferRuntime (fuel : Nat) (st : St) (ty : Node) : List RT × St :=
       match resolveIndexed fuel st objT idxT with
       | (some t, st) => inferRuntime fuel st t
       | (none, st) => ([], st)
+    -- a rest element of an indexed tuple: `[A, ...B[]][1]` is `B`
+    | .mk (.other "TsRestType") _ [.mk .tsArray _ [elem]] => inferRuntime fuel st elem
+    | .mk (.other "TsRestType") _ _ => ([some ANY_TYPE], st)
     | _ => ([some "Object"], st)
 
 /-! ### props object -/
